@@ -128,7 +128,7 @@ class LSFScriptAdapter(SchedulerScriptAdapter):
 
         # LSF requires an hour and minutes format. We need to attempt to split
         # and correct if we get something that's coming in as HH:MM:SS
-        walltime = step.run.get("walltime")
+        walltime = str(step.run.get("walltime"))
         wt_split = walltime.split(":")
         if len(wt_split) == 3:
             # If wall time is specified in three parts, we'll just calculate
